@@ -1,1 +1,296 @@
-(* stub: to be written by group Rates *)
+(* Model of the CSV rate cache file (src/fx/io/rates_cache.rs, CsvRatesCache)
+   at the level of bytes, and of what an interrupted write can leave behind.
+   Definitions only.
+
+   - text: how a year of rates is rendered (Date Display "YYYY-MM-DD", a
+     comma, rust_decimal Display, a line feed) and how the reader
+     get_rates_from_csv takes a file apart (csv crate with has_headers(false)
+     and flexible(false): records of a different field count than the first
+     record are errors and skipped; a row whose date or rate does not parse is
+     skipped; the rest is kept);
+   - a write procedure is a list of steps over a two-name directory (the live
+     file rates-<year>.csv and a temporary file next to it); a file has a
+     durable part and a pending part (written, not yet synced); after a crash
+     any prefix of the pending part may be what is found (assumption about the
+     platform, listed in the trusted base); rename is atomic.
+
+   Not modelled (outside the alphabet digits , . + - LF the generator of the
+   check stays in): quoting, CR, other bytes; decimals with more than 28
+   fractional digits or a mantissa above 2^96-1 (rust_decimal rounds those). *)
+From Coq Require Import List NArith ZArith QArith Qcanon Bool.
+From ACB Require Import Base.QcExtra Base.Fit Model.Rates.
+Import ListNotations.
+Local Open Scope Z_scope.
+
+Definition bytes : Type := list N.
+
+(* ------------------------------------------------------------ civil dates *)
+Definition is_leap (y : Z) : bool := year_len y =? 366.
+(* days of the year before month m (1..12; 13 = whole year) *)
+Definition cum_days (leap : bool) (m : Z) : Z :=
+  let l := if leap then 1 else 0 in
+  match m with
+  | 1 => 0 | 2 => 31 | 3 => 59 + l | 4 => 90 + l | 5 => 120 + l | 6 => 151 + l
+  | 7 => 181 + l | 8 => 212 + l | 9 => 243 + l | 10 => 273 + l | 11 => 304 + l
+  | 12 => 334 + l | _ => 365 + l
+  end.
+Definition month_of_doy (leap : bool) (doy : Z) : Z :=
+  if doy <? cum_days leap 2 then 1 else if doy <? cum_days leap 3 then 2
+  else if doy <? cum_days leap 4 then 3 else if doy <? cum_days leap 5 then 4
+  else if doy <? cum_days leap 6 then 5 else if doy <? cum_days leap 7 then 6
+  else if doy <? cum_days leap 8 then 7 else if doy <? cum_days leap 9 then 8
+  else if doy <? cum_days leap 10 then 9 else if doy <? cum_days leap 11 then 10
+  else if doy <? cum_days leap 12 then 11 else 12.
+
+(* (year, month, day) of a day number *)
+Definition civil (d : Z) : Z * Z * Z :=
+  let y := year_of d in
+  let doy := d - jan1 y in
+  let m := month_of_doy (is_leap y) doy in
+  (y, m, doy - cum_days (is_leap y) m + 1).
+
+(* Date::from_calendar_date with range checks *)
+Definition day_of_civil (y m dd : Z) : option Z :=
+  if (1 <=? m) && (m <=? 12) && (1 <=? dd)
+     && (dd <=? cum_days (is_leap y) (m + 1) - cum_days (is_leap y) m)
+  then Some (jan1 y + cum_days (is_leap y) m + dd - 1) else None.
+
+(* ----------------------------------------------------------------- digits *)
+Definition digit (n : Z) : N := Z.to_N (48 + n).
+Definition is_digit (b : N) : bool := ((48 <=? b) && (b <=? 57))%N.
+Definition dval (b : N) : Z := Z.of_N b - 48.
+
+(* value of a digit string; None if a byte is not a digit *)
+Fixpoint num_acc (acc : Z) (bs : bytes) : option Z :=
+  match bs with
+  | [] => Some acc
+  | b :: t => if is_digit b then num_acc (10 * acc + dval b) t else None
+  end.
+Definition num_of (bs : bytes) : option Z := num_acc 0 bs.
+
+(* decimal digits of a non-negative integer, most significant first *)
+Fixpoint digits_fuel (fuel : nat) (n : Z) (acc : bytes) : bytes :=
+  match fuel with
+  | O => acc
+  | S k =>
+      let acc' := digit (n mod 10) :: acc in
+      if n / 10 =? 0 then acc' else digits_fuel k (n / 10) acc'
+  end.
+Definition digits_of (n : Z) : bytes := digits_fuel (S (Z.to_nat (Z.log2 n))) n [].
+
+Definition digits2 (n : Z) : bytes := [digit (n / 10); digit (n mod 10)].
+Definition digits4 (n : Z) : bytes :=
+  [digit (n / 1000); digit ((n / 100) mod 10); digit ((n / 10) mod 10); digit (n mod 10)].
+
+(* ------------------------------------------------------------------ dates *)
+Definition DASH : N := 45%N.
+Definition PLUS : N := 43%N.
+Definition COMMA : N := 44%N.
+Definition DOT : N := 46%N.
+Definition LF : N := 10%N.
+
+(* Date Display, years 0..9999 *)
+Definition render_date (d : Z) : bytes :=
+  let '(y, m, dd) := civil d in
+  digits4 y ++ [DASH] ++ digits2 m ++ [DASH] ++ digits2 dd.
+
+(* time: "[year]-[month]-[day]" -- optional sign, exactly 4+2+2 digits, valid date *)
+Definition parse_ymd (sign : Z) (bs : bytes) : option Z :=
+  match bs with
+  | [a; b; c; e; s1; f; g; s2; h; i] =>
+      if (s1 =? DASH)%N && (s2 =? DASH)%N then
+        match num_of [a; b; c; e], num_of [f; g], num_of [h; i] with
+        | Some y, Some m, Some dd => day_of_civil (sign * y) m dd
+        | _, _, _ => None
+        end
+      else None
+  | _ => None
+  end.
+Definition parse_date (bs : bytes) : option Z :=
+  match bs with
+  | s :: t =>
+      if (s =? DASH)%N then parse_ymd (-1) t
+      else if (s =? PLUS)%N then parse_ymd 1 t
+      else parse_ymd 1 bs
+  | [] => None
+  end.
+
+(* --------------------------------------------------------------- decimals *)
+(* a rust_decimal value as text sees it: mantissa and scale *)
+Definition dec_t : Type := (Z * nat)%type.
+Definition dec_value (x : dec_t) : Qc := Qcfrac (fst x) (p10 (snd x)).
+
+Fixpoint pad_zeros (n : nat) (bs : bytes) : bytes :=
+  match n with O => bs | S k => digit 0 :: pad_zeros k bs end.
+
+(* Decimal Display of a non-negative value *)
+Definition render_dec (x : dec_t) : bytes :=
+  let '(m, s) := x in
+  let ds := digits_of m in
+  match s with
+  | O => ds
+  | _ =>
+      let ds' := pad_zeros (S s - length ds) ds in
+      let k := (length ds' - s)%nat in
+      firstn k ds' ++ [DOT] ++ skipn k ds'
+  end.
+
+(* split at the first occurrence of a separator *)
+Fixpoint split_first (sep : N) (bs : bytes) : bytes * option bytes :=
+  match bs with
+  | [] => ([], None)
+  | b :: t =>
+      if (b =? sep)%N then ([], Some t)
+      else let '(x, r) := split_first sep t in (b :: x, r)
+  end.
+
+(* Decimal::from_str restricted to what is exact: [+-] digits [. digits],
+   at least one digit, at most 28 fractional digits, mantissa <= 2^96-1 *)
+Definition parse_udec (bs : bytes) : option Qc :=
+  let '(ip, r) := split_first DOT bs in
+  let fp := match r with Some f => f | None => [] end in
+  match num_of ip, num_of fp with
+  | Some _, Some _ =>
+      if (length ip + length fp =? 0)%nat then None
+      else if (28 <? length fp)%nat then None
+      else match num_of (ip ++ fp) with
+           | Some m => if m <=? max_mant then Some (Qcfrac m (p10 (length fp))) else None
+           | None => None
+           end
+  | _, _ => None
+  end.
+Definition parse_dec (bs : bytes) : option Qc :=
+  match bs with
+  | s :: t =>
+      if (s =? DASH)%N then option_map Qcopp (parse_udec t)
+      else if (s =? PLUS)%N then parse_udec t
+      else parse_udec bs
+  | [] => None
+  end.
+
+(* ------------------------------------------------------------- the reader *)
+Fixpoint split_on (sep : N) (bs : bytes) : list bytes :=
+  match bs with
+  | [] => [[]]
+  | b :: t =>
+      match split_on sep t with
+      | cur :: rest => if (b =? sep)%N then [] :: cur :: rest else (b :: cur) :: rest
+      | [] => [[b]]   (* unreachable: split_on never returns [] *)
+      end
+  end.
+
+Definition nonempty (l : bytes) : bool := match l with [] => false | _ => true end.
+
+Definition parse_record (n0 : nat) (rec : list bytes) : list drate :=
+  if (length rec =? n0)%nat then
+    match rec with
+    | f0 :: rest =>
+        match parse_date f0 with
+        | None => []
+        | Some d =>
+            match rest with
+            | f1 :: _ => match parse_dec f1 with Some r => [(d, r)] | None => [] end
+            | [] => []
+            end
+        end
+    | [] => []
+    end
+  else [].
+
+(* get_rates_from_csv *)
+Definition parse_csv (content : bytes) : list drate :=
+  let recs := map (split_on COMMA) (filter nonempty (split_on LF content)) in
+  match recs with
+  | [] => []
+  | r0 :: _ => flat_map (parse_record (length r0)) recs
+  end.
+
+(* write_rates: one record per rate *)
+Definition row_t : Type := (Z * dec_t)%type.
+Definition render_row (r : row_t) : bytes :=
+  render_date (fst r) ++ [COMMA] ++ render_dec (snd r) ++ [LF].
+Definition render_rows (rs : list row_t) : bytes := flat_map render_row rs.
+Definition row_value (r : row_t) : drate := (fst r, dec_value (snd r)).
+
+(* ------------------------------------------------------------ file system *)
+Inductive fname : Type := Live | Tmp.
+Record file : Type := { f_durable : bytes; f_pending : bytes }.
+Record fs : Type := { fs_live : option file; fs_tmp : option file }.
+
+Inductive step : Type :=
+| Create (f : fname)              (* File::create: create or truncate *)
+| Append (f : fname) (b : bytes)  (* bytes handed to the kernel *)
+| Flush                           (* csv::Writer::flush: user-space buffer, nothing durable *)
+| Sync (f : fname)                (* File::sync_all *)
+| Rename (src dst : fname).       (* std::fs::rename, atomic *)
+
+Definition get_file (s : fs) (f : fname) : option file :=
+  match f with Live => fs_live s | Tmp => fs_tmp s end.
+Definition set_file (s : fs) (f : fname) (v : option file) : fs :=
+  match f with
+  | Live => {| fs_live := v; fs_tmp := fs_tmp s |}
+  | Tmp => {| fs_live := fs_live s; fs_tmp := v |}
+  end.
+
+Definition exec_step (s : fs) (st : step) : fs :=
+  match st with
+  | Create f => set_file s f (Some {| f_durable := []; f_pending := [] |})
+  | Append f b =>
+      match get_file s f with
+      | Some x => set_file s f (Some {| f_durable := f_durable x; f_pending := f_pending x ++ b |})
+      | None => s
+      end
+  | Flush => s
+  | Sync f =>
+      match get_file s f with
+      | Some x => set_file s f (Some {| f_durable := f_durable x ++ f_pending x; f_pending := [] |})
+      | None => s
+      end
+  | Rename a b =>
+      match get_file s a with
+      | Some x => set_file (set_file s a None) b (Some x)
+      | None => s
+      end
+  end.
+Definition exec (p : list step) (s : fs) : fs := fold_left exec_step p s.
+
+(* what may be found after a crash in state s: per file, the durable part
+   followed by any prefix of the pending part *)
+Definition persisted (f : option file) (c : option bytes) : Prop :=
+  match f, c with
+  | None, None => True
+  | Some x, Some b => exists k : nat, b = f_durable x ++ firstn k (f_pending x)
+  | _, _ => False
+  end.
+(* post-crash directories of running procedure p from s0: crash after any
+   number of steps (a crash inside an Append is a crash after it with a
+   shorter persisted prefix) *)
+Definition post_crash (p : list step) (s0 : fs) (live tmp : option bytes) : Prop :=
+  exists n : nat,
+    let s := exec (firstn n p) s0 in
+    persisted (fs_live s) live /\ persisted (fs_tmp s) tmp.
+
+(* executable version for the correspondence check: crash after n steps with
+   the first `cut` pending bytes of every file persisted *)
+Definition cut_file (cut : nat) (f : option file) : option bytes :=
+  option_map (fun x => f_durable x ++ firstn cut (f_pending x)) f.
+Definition crash_at (p : list step) (s0 : fs) (n cut : nat) : option bytes * option bytes :=
+  let s := exec (firstn n p) s0 in (cut_file cut (fs_live s), cut_file cut (fs_tmp s)).
+
+(* the two procedures *)
+(* before the fix of C14: File::create(rates-<year>.csv) truncates the live
+   file, rows are streamed into it *)
+Definition inplace_proc (rs : list row_t) : list step :=
+  Create Live :: map (fun r => Append Live (render_row r)) rs ++ [Flush].
+(* after the fix: temporary file, flush, sync, rename over the live file *)
+Definition rename_proc (rs : list row_t) : list step :=
+  Create Tmp :: map (fun r => Append Tmp (render_row r)) rs ++ [Flush; Sync Tmp; Rename Tmp Live].
+
+Definition durable_file (b : bytes) : file := {| f_durable := b; f_pending := [] |}.
+(* a directory holding a completely written old year (or none) *)
+Definition fs_of (old : option (list row_t)) (tmp : option bytes) : fs :=
+  {| fs_live := option_map (fun rs => durable_file (render_rows rs)) old;
+     fs_tmp := option_map durable_file tmp |}.
+
+(* what a later run reads: the rows of the live file, if there is one *)
+Definition read_cache (live : option bytes) : option (list drate) := option_map parse_csv live.
